@@ -12,10 +12,23 @@ structure DelOut (s s' : St) (o : Nat) : Prop where
   vlive : ∀ v, (∀ d, v ≠ Var.cur d) → s'.vlive v = s.vlive v
   kind : s'.kind = s.kind
   next : s'.next = s.next
+  ptr_out : ∀ w, (∀ x, w ∉ s.ring x) → (s'.ptr w = s.ptr w ∨ s'.ptr w = none)
+  alive_sub : ∀ t, s'.alive t = true → s.alive t = true
+  devs : ∀ t, s.alive t = true → s.kind t = .dev → t ≠ o → s'.alive t = true
 
 theorem DelOut.of_killed {s s' : St} {K : List Nat} {o : Nat} (hk : Killed s K s') (ho : o ∈ K)
-    (hK : ∀ x ∈ K, x = o ∨ s.kind x ≠ s.kind o) : DelOut s s' o := by
-  refine ⟨by rw [hk.alive]; simp [ho], ?_, fun v _ => by rw [hk.vlive], hk.kind, hk.next⟩
+    (hK : ∀ x ∈ K, x = o ∨ s.kind x ≠ s.kind o) (hD : ∀ x ∈ K, x = o ∨ s.kind x ≠ .dev) : DelOut s s' o := by
+  refine ⟨by rw [hk.alive]; simp [ho], ?_, fun v _ => by rw [hk.vlive], hk.kind, hk.next,
+    fun w hw => Or.inl (hk.ptrU w (fun x _ => hw x)), fun t ht => ((hk.alive_iff t).mp ht).1, ?_⟩
+  rotate_left
+  · intro t hta htk hto
+    rw [hk.alive]
+    have : t ∉ K := by
+      intro h
+      rcases hD t h with h1 | h1
+      · exact hto h1
+      · exact h1 htk
+    simp [hta, this]
   intro t hta htk hto
   rw [hk.alive]
   have : t ∉ K := by
